@@ -155,6 +155,41 @@ mut('C02', 'worker_failure_not_recorded_in_run_error', S, """							node.setStat
 							node.setErr(execErr)
 							sc.setLastError(execErr)""", """							node.setStatus(NodeStatusError)
 							node.setErr(execErr)""")
+# ---- C10
+mut('C10', 'interrupted_steps_not_reset', G, """				dict[u] == NodeStatusCancel || dict[u] == NodeStatusRunning {""", """				dict[u] == NodeStatusCancel {""")
+mut('C10', 'canceled_steps_not_reset', G, """			if retry[u] || dict[u] == NodeStatusError ||
+				dict[u] == NodeStatusCancel || dict[u] == NodeStatusRunning {""", """			if retry[u] || dict[u] == NodeStatusError || dict[u] == NodeStatusRunning {""")
+mut('C10', 'finished_steps_reset_too', G, """			if retry[u] || dict[u] == NodeStatusError ||""", """			if retry[u] || dict[u] == NodeStatusSuccess || dict[u] == NodeStatusError ||""")
+mut('C10', 'downstream_not_marked', G, """				if retry[u] {
+					retry[v] = true
+				}
+				next = append(next, v)""", """				next = append(next, v)""")
+mut('C10', 'all_successors_marked', G, """				if retry[u] {
+					retry[v] = true
+				}""", """				retry[v] = true""")
+mut('C10', 'reset_clears_wrong_node', G, """				g.dict[u].clearState()
+				retry[u] = true""", """				g.nodes[0].clearState()
+				retry[u] = true""")
+mut('C10', 'recorded_status_table_is_blank', G, """		dict[node.id] = node.data.State.Status
+		retry[node.id] = false""", """		dict[node.id] = NodeStatusNone
+		retry[node.id] = false""")
+mut('C10', 'successor_marked_but_not_queued', G, """				if retry[u] {
+					retry[v] = true
+				}
+				next = append(next, v)""", """				if retry[u] {
+					retry[v] = true
+				}
+				if len(g.to[v]) <= 1 || g.to[v][0] == u {
+					next = append(next, v)
+				}""")
+mut('C10', 'unfinished_roots_mark_everything', G, """		retry[node.id] = false
+	}""", """		retry[node.id] = node.data.State.Status == NodeStatusNone
+	}""")
+mut('C10', 'clear_state_keeps_status', N, """func (n *Node) clearState() {
+	n.data.State = NodeState{}
+}""", """func (n *Node) clearState() {
+	n.data.State = NodeState{Status: n.data.State.Status}
+}""")
 mut('C12', 'setup_no_longer_rearms_teardown', N, """	n.done = false
 
 	// Set the log file path""", """	// Set the log file path""")
